@@ -205,9 +205,14 @@ ASMJIT_FAVOR_SIZE Error FuncArgsContext::init_work_data(const FuncFrame& frame, 
         sa_cur_reg_id = sa_out_reg_id;
       }
       else {
-        RegMask available_regs = gp_regs.available_regs();
+        // Prefer a register that is not a destination of the assignment - a variable without a destination that sits in
+        // another variable's destination register would have to be moved away again by the shuffler.
+        RegMask available_regs = gp_regs.available_regs() & ~gp_regs.dst_regs();
         if (!available_regs) {
           available_regs = gp_regs.arch_regs() & ~gp_regs.work_regs();
+        }
+        if (!available_regs) {
+          available_regs = gp_regs.available_regs();
         }
 
         if (ASMJIT_UNLIKELY(!available_regs)) {
